@@ -45,7 +45,10 @@ impl ToTokens for MaybeVoid {
 }
 
 pub fn is_punct(tt: &TokenTree, expect: char) -> bool {
-    matches!(tt, TokenTree::Punct(punct) if punct.as_char() == expect && punct.spacing() == Spacing::Alone)
+    // A comma separates whatever follows it (`Debug,::logos::Logos`); for the other characters
+    // the spacing is what tells `=` from `==` or `=>`.
+    matches!(tt, TokenTree::Punct(punct) if punct.as_char() == expect
+        && (expect == ',' || punct.spacing() == Spacing::Alone))
 }
 
 /// If supplied `tt` is a punct matching a char, returns `None`, else returns `tt`
